@@ -76,6 +76,13 @@ def replay_gridded(args):
         inner = np.zeros((ny, nx), dtype=bool); inner[1:-1, 1:-1] = True     # samples exactly on the array bound: rounding of the transform decides
         if got.shape != exp.shape or not np.allclose(got[inner], exp[inner], rtol=1e-9, atol=1e-8):
             out.append(('gridded_value_is_bilinear_blend_of_cell_nodes_at_sample_points', sig, {'case': c, 'max_abs_dev': float(np.max(np.abs(got - exp)[inner]))}))
+        # the functional form: evaluate(x, y, flux, x_0, y_0) with explicit arguments while the instance itself sits somewhere else
+        model.x_0, model.y_0, model.flux = gx[-1] - 0.3, gy[0] + 0.2, 1.0
+        got2 = np.asarray(model.evaluate(xs, ys, flux, x0, y0), dtype=float)
+        model.x_0, model.y_0, model.flux = x0, y0, flux
+        if got2.shape != exp.shape or not np.allclose(got2[inner], exp[inner], rtol=1e-9, atol=1e-8):
+            out.append(('gridded_value_is_bilinear_blend_of_cell_nodes_at_sample_points', dict(sig, form='evaluate_with_explicit_position'),
+                        {'case': c, 'max_abs_dev': float(np.max(np.abs(got2 - exp)[inner]))}))
         # outside the ePSF array: fill_value
         far = np.asarray(model(np.array([[x0 + 50.0]]), np.array([[y0]])), dtype=float)
         if far[0, 0] != float(fill):
